@@ -476,3 +476,21 @@ package core
 //@ lemma merge_associative [C27]: forall x int, y int, z int :: max(max(x, y), z) == max(x, max(y, z))
 //@ lemma merge_idempotent [C27]: forall x int :: max(x, x) == x
 //@ lemma merge_best [C27]: forall x int, y int :: max(x, y) >= x && max(x, y) >= y && (max(x, y) == x || max(x, y) == y)
+
+// The target hasher memoises output hashes in its own map; it does not touch the state or the target.
+//@ assume func (TargetHasher).OutputHash
+//@   modifies nothing
+
+// Accessors that only read fields of the target: functions of the target's current value.
+//@ assume func (BuildTarget).TmpDir
+//@   pure
+//@ assume func (BuildTarget).GetTmpOutput
+//@   pure
+//@ assume func (BuildTarget).OutMode
+//@   pure
+//@ assume func (BuildTarget).BuildCouldModifyTarget
+//@   pure
+//@ assume func (BuildTarget).HashLastModified
+//@   pure
+//@ assume func (BuildTarget).TargetBuildMetadataFileName
+//@   pure
